@@ -470,7 +470,7 @@ func main() {
 	r.Assume = []string{
 		"SHA-256, SHA-512, RIPEMD-160, HMAC, PBKDF2 are modelled, not verified (Lean implementations compared with Go's on every run); scrypt is opaque (computed by the repository's package and handed to the model)",
 		"the elliptic curve in model and theorems is the reference curve of Base/Secp.lean; gocoin's limb arithmetic is tied to it by this run only (and is the subject of C08)",
-		"pub_commutes assumes the named group-law facts of the reference curve (distributivity of scalar multiplication of G over addition mod n, parse∘serialize = id on multiples of G); serialize/WIF round trips assume Base58 decode∘encode = id (C15)",
+		"the reference-curve facts used by pub_commutes / ckd_pub_spec / derive_is_bip32 ((a+k mod n)G = aG + kG, parse∘serP = id on curve points, jG finite for 0<j<n) are no longer assumed: they are derived in Proofs/C14Curve.lean from C03's reference_curve_group_law / generator_order / parsePubkey_ser33 (Mathlib's Weierstrass group law; p, n prime by C08_Primes); serialize/WIF round trips import C15's Base58 decode∘encode = id",
 		"outside the model: private keys ≡ 0 mod n and sums equal to the point at infinity (gocoin serialises stale coordinates there), public keys with x ≥ p or x off the curve, non-ASCII white space in mnemonics, interactive password entry, .others imports, the -p39 prompt",
 	}
 	r.Extra["observations"] = []string{
